@@ -74,6 +74,20 @@ macro_rules! const_hist_impl {
             fn iter_items(&self) -> Vec<((f64, f64), u64)> {
                 self.iter().collect()
             }
+            fn iter_protocol(&self, k: usize) -> (Vec<((f64, f64), u64)>, Vec<((f64, f64), u64)>, Vec<((f64, f64), u64)>, bool) {
+                let mut it = self.iter();
+                let mut first = Vec::new();
+                for _ in 0..k {
+                    if let Some(x) = it.next() {
+                        first.push(x);
+                    }
+                }
+                let mut cl = it.clone();
+                let rest: Vec<_> = it.by_ref().collect();
+                let rest_clone: Vec<_> = cl.by_ref().collect();
+                let none_twice = it.next().is_none() && it.next().is_none() && cl.next().is_none();
+                (first, rest, rest_clone, none_twice)
+            }
             fn widths(&self) -> Vec<f64> {
                 Histogram::<$len>::widths(self).collect()
             }
